@@ -296,6 +296,7 @@ class _DriverHooks(Hooks):
 def _driver_outcomes(ctx: Ctx, g: Func, calc_calls, result_cls: str, fields: dict):
     interp = Interp(ctx.repo, _DriverHooks(calc_calls, (Obj("R", result_cls),)))
     interp.track_raises = True
+    interp.interpret_private = True
     st = State({"self": {}, "R": dict(fields)}, {})
     kwargs = {a.arg: True for a in g.node.args.kwonlyargs}
     args = [Obj("self", g.cls.qualname if g.cls else "")] + [Sym(p) for p in g.positional[1:]]
